@@ -30,8 +30,8 @@ ASSUMPTIONS = [
     "Junos-like vendors (juniper, ribbon, nokia): flattened set/delete statements are segmented into rows by the rulebook (block rows have a fixed word count, no catch-alls, no %rewrite, no negated-form rules there); `set` creates missing blocks, `delete` inside a missing block is a no-op",
     "the RouterOS formatter is not simulated here",
 ]
-FLOORS = {"quick": {"patches_executed": 3000, "commands_executed": 5000, "removals_executed": 500, "second_diffs_empty": 3000, "flat_patches_executed": 800, "flat_commands_executed": 2000, "overlapping_rule_cases": 50, "undo_redo_block_cases": 50},
-          "thorough": {"patches_executed": 100000, "commands_executed": 200000, "removals_executed": 20000, "second_diffs_empty": 100000, "flat_patches_executed": 30000, "flat_commands_executed": 80000, "overlapping_rule_cases": 2000, "undo_redo_block_cases": 2000}}
+FLOORS = {"quick": {"patches_executed": 3000, "commands_executed": 5000, "removals_executed": 500, "second_diffs_empty": 3000, "flat_patches_executed": 800, "flat_commands_executed": 2000, "overlapping_rule_cases": 50, "undo_redo_block_cases": 50, "model_chain_patches_executed": 30},
+          "thorough": {"patches_executed": 100000, "commands_executed": 200000, "removals_executed": 20000, "second_diffs_empty": 100000, "flat_patches_executed": 30000, "flat_commands_executed": 80000, "overlapping_rule_cases": 2000, "undo_redo_block_cases": 2000, "model_chain_patches_executed": 300}}
 BLOCK_VENDORS = ["huawei", "h3c", "optixtrans", "cisco", "nexus", "iosxr", "arista", "aruba", "b4com", "pc"]
 FLAT_VENDORS = {"juniper": {"set"}, "ribbon": {"set"}, "nokia": {"/configure"}}
 FLAT_ALLOW = ("global", "ordered", "logic", "flat")
@@ -50,6 +50,7 @@ def plan(tier, seed):
     specs = [{"mode": "random", "tier": tier, "seed": seed, "shard": k, "nshards": n} for k in range(n)]
     for k in range(2 if tier == "quick" else 8):
         specs.append({"mode": "exhaustive", "tier": tier, "seed": seed, "shard": k, "nshards": 2 if tier == "quick" else 8})
+    specs.append({"mode": "models", "tier": tier, "seed": seed})
     return specs
 
 
@@ -308,7 +309,108 @@ def run_exhaustive(spec, acc):
     acc.sample({"exhaustive_rulebook": text, "trees": len(trees)})
 
 
+# ---- shipped rulebooks, several hardware models handled by one process ------------------------------------------
+MODEL_CHAINS = [
+    # (model, old text, new text): lines whose rule depends on the hardware family the rule templates branch on
+    ("Huawei Quidway S5700", "interface GE1/0/1\n trust dscp\n stp edged-port enable\n", "interface GE1/0/1\n trust 8021p\n"),
+    ("Huawei CE6870", "interface 10GE1/0/1\n trust 8021p\n stp edged-port enable\n", "interface 10GE1/0/1\n trust dscp\n"),
+    ("Huawei NE40E-X8", "interface GE1/0/1\n trust dscp\n stp edged-port default\n", "interface GE1/0/1\n trust 8021p\n stp edged-port enable\n"),
+    ("Huawei CE6870", "interface 10GE1/0/2\n trust dscp\n", "interface 10GE1/0/2\n trust 8021p\n description x\n"),
+    ("Huawei Quidway S5300", "interface GE1/0/2\n trust 8021p\n", "interface GE1/0/2\n trust dscp\n"),
+    ("Huawei", "interface GE1/0/3\n trust 8021p\n jumboframe enable 9000\n", "interface GE1/0/3\n trust dscp\n"),
+]
+
+
+class RuleDevice:
+    """a device that holds one line per (rule, key) of a SHIPPED rulebook: which rule and key a line has is read off a rulebook
+    compiled by a fresh provider for the device's own model (annet's rule matching is used as the measuring device here)"""
+
+    def __init__(self, tree, rb, prefix, exits):
+        self.root = D.from_tree(tree)
+        self.rules = rb["patching"]
+        self.prefix = prefix
+        self.exits = set(x for x in exits if x)
+
+    @staticmethod
+    def ident(row, rules):
+        from annet.annlib.patching import _match_row_to_rules
+        m, ch = _match_row_to_rules(row, rules)
+        if m is None:
+            return None, None
+        return (m["raw_rule"], tuple(m["key"])), ch
+
+    def execute(self, path):
+        nodes, rules = self.root, self.rules
+        for b in path[:-1]:
+            idb, ch = self.ident(b, rules)
+            hit = next((n for n in nodes if n[0] == b), None)
+            if hit is None:
+                raise D.DeviceError("command %r issued inside block %r which does not exist on the device" % (path, b))
+            nodes, rules = hit[1], (ch if ch is not None else {"local": {}, "global": {}})
+        cmd = path[-1]
+        if cmd in self.exits:
+            return
+        neg = cmd.startswith(self.prefix + " ")
+        idc, _ = self.ident(cmd[len(self.prefix) + 1:] if neg else cmd, rules)
+        if idc is None:
+            raise D.DeviceError("command %r addresses nothing the model's rulebook knows" % (path,))
+        i = next((k for k, n in enumerate(nodes) if self.ident(n[0], rules)[0] == idc), None)
+        if neg:
+            if i is not None:
+                del nodes[i]
+        elif i is None:
+            nodes.append([cmd, []])
+        else:
+            nodes[i][0] = cmd
+
+
+def run_model_chains(spec, acc):
+    """one process (one shared rulebook provider) serves several models of a vendor one after another, in every order"""
+    from annet import tabparser
+    from annet.api import _diff_and_patch
+    from annet.annlib.netdev.views.hardware import HardwareView
+    from annet.rulebook import DefaultRulebookProvider
+    from annet.vendors import registry_connector
+    orders = list(itertools.permutations(range(len(MODEL_CHAINS)), 3))
+    rng = random.Random("C01/models/%s" % spec["seed"])
+    rng.shuffle(orders)
+    for order in orders[: (12 if spec["tier"] == "quick" else len(orders))]:
+        for idx in order:
+            model, ot, nt = MODEL_CHAINS[idx]
+            hw = HardwareView(model, "")
+            v = registry_connector.get().match(hw)
+            fmt = v.make_formatter()
+            old, new = tabparser.parse_to_tree(ot, fmt.split), tabparser.parse_to_tree(nt, fmt.split)
+            w = {"model_chain": True, "order": [MODEL_CHAINS[i][0] for i in order], "model": model, "old": plain(old), "new": plain(new)}
+            try:
+                _, patch = _diff_and_patch(Dev(hw), old, new, None, None, False)   # the process-wide provider
+                paths = [tuple(p) for p in fmt.cmd_paths(patch)]
+                fresh = DefaultRulebookProvider().get_rulebook(hw)              # what this model's rulebook is
+                dev = RuleDevice(old, fresh, v.reverse, {v.exit} | EXIT_EXTRA)
+                for p in paths:
+                    dev.execute(p)
+                state = unplain(D.to_plain(dev.root))
+                diff2, patch2 = _diff_and_patch(Dev(hw), state, new, None, None, False, rb=fresh)
+                paths2 = [tuple(p) for p in fmt.cmd_paths(patch2)]
+            except D.DeviceError as e:
+                acc.violation("C01/device-rejects-command", "a patch command does not address a line of its block / is issued outside its block", dict(w, error=str(e)))
+                return
+            except Exception as e:
+                acc.violation("C01/exception/%s" % type(e).__name__, "diff/patch computation raised on an in-domain input", dict(w, error=repr(e)[:300]))
+                return
+            acc.count("model_chain_patches_executed")
+            acc.count("patches_executed")
+            acc.case(["model-chain", [MODEL_CHAINS[i][0] for i in order], model], nontrivial=bool(paths))
+            if diff2 or paths2:
+                acc.violation("C01/second-diff-not-empty", "a second diff taken after deploying the patch is not empty",
+                              dict(w, commands=[list(p) for p in paths], device_after=D.to_plain(dev.root), second_commands=[list(p) for p in paths2]))
+                return
+            acc.count("second_diffs_empty")
+
+
 def run_shard(spec, acc):
+    if spec["mode"] == "models" or (spec["mode"] == "replay" and spec["witness"].get("model_chain")):
+        return run_model_chains({"tier": spec.get("tier", "quick"), "seed": spec.get("seed", 0)}, acc)
     if spec["mode"] == "replay":
         w = spec["witness"]
         if w.get("exhaustive") or "case" not in w:
